@@ -195,6 +195,12 @@ def bc_problems(case):
         mp.finalize()
         idx = [np.asarray(mp.patch_to_global_idx(q)) for q in range(len(patches))]
         ind, val = mp.compute_dirichlet_bcs([(q, bd, g) for (q, bd) in outer])
+        # the same conditions listed in other orders (a patch re-appears after other patches): same result
+        alt = []
+        for name, lst in (("interleaved", sorted(outer, key=lambda t: (t[1], t[0]))),
+                          ("interleaved-reversed", sorted(outer, key=lambda t: (t[1], t[0]))[::-1]),
+                          ("alternating", outer[0::2] + outer[1::2])):
+            alt.append((name, mp.compute_dirichlet_bcs([(q, bd, g) for (q, bd) in lst])))
     except Exception as e:
         return [("bc:exception:%s" % type(e).__name__, "multipatch Dirichlet computation raised %r" % (e,))]
     want = {}
@@ -212,6 +218,14 @@ def bc_problems(case):
     err = np.abs(np.asarray(val) - ref).max()
     if not err <= 1e-11 * max(1.0, np.abs(ref).max()):
         probs.append(("bc:values", "Dirichlet values differ from the boundary data at the dof positions by %.3g" % err))
+    for name, (ind2, val2) in alt:
+        ind2, val2 = np.asarray(ind2), np.asarray(val2)
+        if ind2.tolist() != sorted(want):
+            probs.append(("bc:order:indices", "conditions listed %s: Dirichlet indices %s.. != sorted glued boundary dofs %s.."
+                          % (name, ind2.tolist()[:8], sorted(want)[:8])))
+        elif not np.abs(val2 - ref).max() <= 1e-11 * max(1.0, np.abs(ref).max()):
+            probs.append(("bc:order:values", "conditions listed %s: Dirichlet values differ from the boundary data by %.3g"
+                          % (name, np.abs(val2 - ref).max())))
     return probs
 
 
